@@ -29,6 +29,9 @@ pub struct Case {
     /// 0 never, 1 before the call, 2 at the N-th collision query
     pub cancel: u8,
     pub cancel_at: u32,
+    /// goal = start + close * step * direction (0 = ordinary far goal): pairs closer than one planner step, incl. start == goal
+    #[serde(default)]
+    pub close: Option<f64>,
 }
 
 /// Harness-side Kinematics wrapper: counts collision queries (one forward_with_joint_poses call each) and
@@ -121,6 +124,12 @@ pub fn planning_scene(max_env: usize) -> BoxedStrategy<Scene> {
         .boxed()
 }
 
+fn fine_for_close() -> BoxedStrategy<Case> {
+    (planning_scene(1), limit_box(), prop::array::uniform6(0.1..0.9f64), prop::array::uniform6(-1.0..1.0f64), 1.0..10.0f64, prop_oneof![Just(0u32), Just(1u32), Just(100u32)], any::<u64>())
+        .prop_map(|(scene, limits, start_u, dir, step_deg, max_try, rng_seed)| Case { scene, limits, start_u, goal_u: dir, step_deg, max_try, rng_seed, cancel: 0, cancel_at: 1, close: Some(0.5) })
+        .boxed()
+}
+
 impl Property for C13 {
     type Case = Case;
     fn id(&self) -> &'static str {
@@ -175,7 +184,7 @@ impl Property for C13 {
                     e.gap_factor = *gap;
                     e.side = *side;
                 }
-                Case { scene, limits, start_u, goal_u, step_deg, max_try, rng_seed, cancel: 0, cancel_at: 1 }
+                Case { scene, limits, start_u, goal_u, step_deg, max_try, rng_seed, cancel: 0, cancel_at: 1, close: None }
             });
         let fine = (
             planning_scene(3),
@@ -188,8 +197,15 @@ impl Property for C13 {
             prop_oneof![5 => Just(0u8), 1 => Just(1u8), 2 => Just(2u8)],
             prop_oneof![4 => any::<u16>().prop_map(|i| [1u32, 2, 3, 5, 10, 30, 100][crate::engine::pick_idx(i, 7)]), 1 => 1u32..400],
         )
-            .prop_map(|(scene, limits, start_u, goal_u, step_deg, max_try, rng_seed, cancel, cancel_at)| Case { scene, limits, start_u, goal_u, step_deg, max_try, rng_seed, cancel, cancel_at });
-        prop_oneof![3 => fine, 2 => coarse].boxed()
+            .prop_map(|(scene, limits, start_u, goal_u, step_deg, max_try, rng_seed, cancel, cancel_at)| Case { scene, limits, start_u, goal_u, step_deg, max_try, rng_seed, cancel, cancel_at, close: None });
+        // close pairs: goal within a fraction of one step of the start (or equal to it), with every cancellation mode
+        let near = (fine_for_close(), prop_oneof![1 => Just(0.0), 3 => 0.05..0.95f64, 1 => 1.0..3.0f64], 0u8..3).prop_map(|(mut c, f, cancel)| {
+            c.close = Some(f);
+            c.cancel = cancel;
+            c.cancel_at = 1;
+            c
+        });
+        prop_oneof![6 => fine, 4 => coarse, 2 => near].boxed()
     }
     fn check(&self, c: &Case, ctx: &mut Ctx) -> Res {
         if c.scene.safety.ambiguous() {
@@ -225,16 +241,36 @@ impl Property for C13 {
             }
             None
         };
-        let (start, goal) = match (pick(&c.start_u, 0.0), pick(&c.goal_u, 0.5)) {
-            (Some(a), Some(b)) => (a, b),
-            _ => {
-                ctx.exclude("no collision-free start/goal among 10 candidates each");
-                return Ok(());
+        let step = c.step_deg.to_radians();
+        let (start, goal) = match c.close {
+            None => match (pick(&c.start_u, 0.0), pick(&c.goal_u, 0.5)) {
+                (Some(a), Some(b)) => (a, b),
+                _ => {
+                    ctx.exclude("no collision-free start/goal among 10 candidates each");
+                    return Ok(());
+                }
+            },
+            Some(f) => {
+                // goal_u is a direction here
+                let a = match pick(&c.start_u, 0.0) {
+                    Some(a) => a,
+                    None => {
+                        ctx.exclude("no collision-free start among 10 candidates");
+                        return Ok(());
+                    }
+                };
+                let n = (0..6).map(|k| c.goal_u[k] * c.goal_u[k]).sum::<f64>().sqrt().max(1e-9);
+                let b: [f64; 6] = std::array::from_fn(|k| (a[k] + f * step * c.goal_u[k] / n).max(l.from[k]).min(l.to[k]));
+                if robot.collides(&b) {
+                    ctx.exclude("close goal collides");
+                    return Ok(());
+                }
+                ctx.class(if f == 0.0 { "close-pair:start==goal" } else if f < 1.0 { "close-pair:within one step" } else { "close-pair:1..3 steps" });
+                (a, b)
             }
         };
         counting.queries.store(0, Ordering::SeqCst);
         counting.constraints_calls.store(0, Ordering::SeqCst);
-        let step = c.step_deg.to_radians();
         let planner = RRTPlanner { step_size_joint_space: step, max_try: c.max_try as usize, debug: false };
         if c.cancel % 3 == 1 {
             stop.store(true, Ordering::SeqCst);
@@ -267,7 +303,7 @@ impl Property for C13 {
             }
             Ok(path) => {
                 ctx.class("outcome:Ok");
-                ensure!(path.len() >= 2 || (path.len() == 1 && start == goal), "the path contains start and goal", "path of {} nodes", path.len());
+                ensure!(!path.is_empty(), "the path contains start and goal", "empty path");
                 ensure!((0..6).all(|k| path[0][k].to_bits() == start[k].to_bits()), "the path begins with the start vector exactly", "first node {:?} start {:?}", path[0], start);
                 let last = path[path.len() - 1];
                 ensure!((0..6).all(|k| last[k].to_bits() == goal[k].to_bits()), "the path ends with the goal vector exactly", "last node {:?} goal {:?}", last, goal);
